@@ -2,6 +2,8 @@ import NirVerif.Properties.C18
 import NirVerif.Properties.C03
 import NirVerif.Lemmas.Idempotent
 import NirVerif.Lemmas.IdempotentConv2d
+import NirVerif.Lemmas.DictExact
+import NirVerif.Lemmas.IdempotentFlatten
 
 /-! # C13 — the dictionary form is a faithful, independent copy
 
@@ -128,6 +130,68 @@ theorem roundtrip_exact_conv2d (kw : List (String × Val)) (n : Node) (h : const
     subst hkind hc he
     rw [roundtrip "Conv2d" f i o m (by decide) (by decide) hnt]
     exact hidem
+
+/-- … and for **Input / Output** nodes (their dictionary form stores the bare shape under `shape`
+and `from_dict` re-wraps it): any Input whose types are the single-port dictionaries of one shape
+value — what the constructor produces for an ndarray, list, tuple or `None` argument — with any
+metadata, comes back as exactly the same node. -/
+theorem roundtrip_exact_input (s md : Val) :
+    (toDict (Node.mk "Input" [] (typeDict "input" s) (typeDict "output" s) md [] [])).bind fromDict
+      = .ok (Node.mk "Input" [] (typeDict "input" s) (typeDict "output" s) md [] []) := by
+  simp only [toDict, typeEntry, getItem, typeDict, lookup, beq_self_eq_true, if_true, bind, Except.bind, pure, Except.pure,
+    List.nil_append]
+  have hc : Generated.whitelist.contains "Input" = true := by decide
+  simp only [fromDict, fromDictFuel, lookup, String.reduceBEq, Bool.false_eq_true, if_false, beq_self_eq_true, if_true,
+    str2NIRNode, hc, bind, Except.bind, pure, Except.pure, Py.insert, erase, typeDict]
+  rfl
+
+theorem roundtrip_exact_output (s md : Val) :
+    (toDict (Node.mk "Output" [] (typeDict "input" s) (typeDict "output" s) md [] [])).bind fromDict
+      = .ok (Node.mk "Output" [] (typeDict "input" s) (typeDict "output" s) md [] []) := by
+  simp only [toDict, typeEntry, getItem, typeDict, lookup, beq_self_eq_true, if_true, bind, Except.bind, pure, Except.pure,
+    List.nil_append]
+  have hc : Generated.whitelist.contains "Output" = true := by decide
+  simp only [fromDict, fromDictFuel, lookup, String.reduceBEq, Bool.false_eq_true, if_false, beq_self_eq_true, if_true,
+    str2NIRNode, hc, bind, Except.bind, pure, Except.pure, Py.insert, erase, typeDict]
+  rfl
+
+/-- … and for **Flatten** (the dictionary stores the bare input shape under `input_type`;
+`from_dict` re-wraps it and the constructor recomputes the output type): a constructor-built
+Flatten whose input type is a single-port dictionary — defined or `None` — comes back as exactly
+the same node, at any nesting fuel. -/
+theorem roundtrip_exact_flatten (kw : List (String × Val)) (n : Node) (h : construct "Flatten" kw = .ok n)
+    (s : Val) (hs : n.inputType = typeDict "input" s) : DictExact n :=
+  dictExact_flatten kw n h s hs
+
+/-- **Exact round trip of whole flat graphs**: a graph (any edge list, any metadata, unique node
+names) whose children each round-trip exactly — constructor-built nodes of the 12 parameter-storing
+classes and Conv2d (`dictExact_simple`, `dictExact_conv2d`), Flatten (`dictExact_flatten`), Inputs and
+Outputs (`dictExact_input`, `dictExact_output`): 16 of the 17 leaf classes — comes back from `NIRGraph.from_dict(g.to_dict())` as exactly the same graph:
+same children in the same order, same edges, same metadata, same mirrored interface. -/
+theorem graph_roundtrip_exact (children : List (String × Node)) (edges : List Edge) (md : Val)
+    (hkeys : (children.map Prod.fst).Nodup) (h : ∀ kn ∈ children, DictExact kn.2) :
+    (toDict (mkGraph children edges md)).bind fromDict = .ok (mkGraph children edges md) :=
+  graph_dict_exact children edges md hkeys h
+
+/-- Non-vacuity: Input → LIF (constructor-built, self-loop) → Output with graph metadata. -/
+example :
+    let lif := Node.mk "LIF" [("tau", .arr DType.float64 [2] []), ("r", .arr DType.float64 [2] []),
+        ("v_leak", .arr DType.float64 [2] []), ("v_threshold", .arr DType.float64 [2] [])]
+        (typeDict "input" (Val.ofInts [2])) (typeDict "output" (Val.ofInts [2])) (.dict []) [] []
+    let g := mkGraph [("in", Node.mk "Input" [] (typeDict "input" (Val.ofInts [2])) (typeDict "output" (Val.ofInts [2])) (.dict []) [] []),
+        ("lif", lif),
+        ("out", Node.mk "Output" [] (typeDict "input" (Val.ofInts [2])) (typeDict "output" (Val.ofInts [2])) (.dict [("k", .int 1)]) [] [])]
+      [("in", "lif"), ("lif", "lif"), ("lif", "out")] (.dict [("note", .str "x")])
+    (toDict g).bind fromDict = .ok g := by
+  intro lif g
+  apply graph_roundtrip_exact _ _ _ (by decide)
+  intro kn hkn
+  simp only [List.mem_cons, List.mem_nil_iff, or_false] at hkn
+  rcases hkn with rfl | rfl | rfl
+  · exact dictExact_input _ _
+  · exact dictExact_simple "LIF" [("tau", .arr DType.float64 [2] []), ("r", .arr DType.float64 [2] []),
+      ("v_leak", .arr DType.float64 [2] []), ("v_threshold", .arr DType.float64 [2] [])] lif (by decide) (by rfl) ⟨rfl, rfl⟩
+  · exact dictExact_output _ _
 
 /-- Non-vacuity: a Conv1d with an erased (`None`) input shape — which the file form cannot
 carry — goes through the dictionary form and the constructor sees `None` again. -/
